@@ -72,7 +72,7 @@ package mimetype
 //@   ensures [C02_clone_same] sameSlice(result.extension, m.extension) && sameSlice(result.aliases, m.aliases) && (len(ps) == 0 ==> sameSlice(result.mime, m.mime))
 
 //@ func mimetype.(*MIME).cloneHierarchy
-//@   requires held(R)
+//@   requires [C06_held] held(R)
 //@   requires TI() && allocated(m) && isNode(m)
 //@   ensures result != nil && fresh(result)
 //@   ensures TI()
@@ -102,7 +102,7 @@ package mimetype
 //@ spec mirrors(x, n) = x != nil && x.extension == MIME(n).extension && x.aliases == MIME(n).aliases && x.detector == nil && len(x.children) == 0
 
 //@ func mimetype.(*MIME).match
-//@   requires held(R)
+//@   requires [C06_held] held(R)
 //@   requires TI() && allocated(m) && isNode(m)
 //@   assume [leaf_step] forall n :: forall i :: 0 < n && n <= HEAPTOP() && isNode(n) && 0 <= i && i < len(MIME(n).children) && accepts(MIME(n).children[i], in, readLimit) && (forall j :: 0 <= j && j < i ==> !accepts(MIME(n).children[j], in, readLimit)) ==> leaf(n, in, readLimit) == leaf(MIME(n).children[i], in, readLimit)
 //@   assume [leaf_stop] forall n :: 0 < n && n <= HEAPTOP() && isNode(n) && (forall j :: 0 <= j && j < len(MIME(n).children) ==> !accepts(MIME(n).children[j], in, readLimit)) ==> leaf(n, in, readLimit) == n
@@ -119,7 +119,7 @@ package mimetype
 //@   loop 1 invariant [C03_first] forall j :: 0 <= j && j <= rangeindex ==> !accepts(m.children[j], in, readLimit)
 
 //@ func mimetype.(*MIME).flatten
-//@   requires held(R)
+//@   requires [C06_held] held(R)
 //@   requires TI() && allocated(m) && isNode(m)
 //@   ensures forall i :: 0 <= i && i < len(result) ==> allocated(result[i]) && isNode(result[i])
 //@   decreases treeDepth - m.depth
@@ -129,7 +129,7 @@ package mimetype
 //@ ghostfun hits(int, bytes) bool
 
 //@ func mimetype.(*MIME).lookup
-//@   requires held(R)
+//@   requires [C06_held] held(R)
 //@   requires TI() && allocated(m) && isNode(m)
 //@   ensures result == nil || allocated(result) && isNode(result)
 //@   ensures [C15_lookup_sound] result != nil ==> hasName(result, mime)
@@ -158,14 +158,16 @@ package mimetype
 
 //@ func mimetype.Lookup
 //@   requires TI()
+//@   ensures [C14C15_lookup_complete] (result != nil) == hits(root, mime)
 //@   ensures [C15_lookup_sound] result != nil ==> result.mime == mime || (exists i :: 0 <= i && i < len(result.aliases) && result.aliases[i] == mime)
 
 // examined header: the first limit bytes (all of the input when the limit is 0)
 //@ func mimetype.Detect
 //@   requires TI()
+//@   ensures [C06_one_sample] loads() == old(loads()) + 1
 //@   ensures result != nil
-//@   ensures [C03C04_detect_cut] old(readLimit) > 0 && len(in) > old(readLimit) ==> mirrors(result, leaf(root, in[:old(readLimit)], old(readLimit)))
-//@   ensures [C03C04_detect_whole] !(old(readLimit) > 0 && len(in) > old(readLimit)) ==> mirrors(result, leaf(root, in, old(readLimit)))
+//@   ensures [C03C04C06_detect_cut] old(readLimit) > 0 && len(in) > old(readLimit) ==> mirrors(result, leaf(root, in[:old(readLimit)], old(readLimit)))
+//@   ensures [C03C04C06_detect_whole] !(old(readLimit) > 0 && len(in) > old(readLimit)) ==> mirrors(result, leaf(root, in, old(readLimit)))
 //@   ensures [C03_orig_cut] old(readLimit) > 0 && len(in) > old(readLimit) ==> MIME(result.orig) == MIME(leaf(root, in[:old(readLimit)], old(readLimit)))
 //@   ensures [C03_orig_whole] !(old(readLimit) > 0 && len(in) > old(readLimit)) ==> MIME(result.orig) == MIME(leaf(root, in, old(readLimit)))
 //@   ensures [C02C03_chain] fresh(result) && (forall x :: fresh(MIME(x)) ==> link(x))
@@ -181,26 +183,28 @@ package mimetype
 
 //@ func mimetype.DetectReader
 //@   requires TI()
+//@   ensures [C06_one_sample] loads() == old(loads()) + 1
 //@   ghost entry: reader_err = 0
 //@   ghost return: readBytes = in
 //@   ensures result0 != nil
-//@   ensures [C05_limit] old(readLimit) > 0 ==> reader_used - old(reader_used) <= old(readLimit)
+//@   ensures [C04C05C06_limit] old(readLimit) > 0 ==> reader_used - old(reader_used) <= old(readLimit)
 //@   ensures [C02C05_err] result1 != nil ==> result0 == errMIME
 //@   ensures [C05_surface] readFailed() ==> result0 == errMIME && errid(result1) == reader_err
 //@   ensures [C05_noerr] !readFailed() ==> result1 == nil
-//@   ensures [C03C05_same_walk] result1 == nil ==> len(readBytes) == reader_n && mirrors(result0, leaf(root, readBytes, old(readLimit)))
+//@   ensures [C03C04C05C06_same_walk] result1 == nil ==> len(readBytes) == reader_n && mirrors(result0, leaf(root, readBytes, old(readLimit)))
 //@   ensures [C03C05_orig] result1 == nil ==> MIME(result0.orig) == MIME(leaf(root, readBytes, old(readLimit)))
 //@   ensures [C02C03_chain] result1 == nil ==> fresh(result0) && (forall x :: fresh(MIME(x)) ==> link(x))
 
 // file_opened: ghost, os.Open succeeded in this call (set by its assumed contract)
 //@ func mimetype.DetectFile
 //@   requires TI()
+//@   ensures [C06_one_sample] loads() <= old(loads()) + 1
 //@   ghost entry: reader_err = 0
 //@   ensures result0 != nil
 //@   ensures [C02C05_err] result1 != nil ==> result0 == errMIME
-//@   ensures [C05_file_limit] old(readLimit) > 0 ==> reader_used - old(reader_used) <= old(readLimit)
+//@   ensures [C04C05_file_limit] old(readLimit) > 0 ==> reader_used - old(reader_used) <= old(readLimit)
 //@   ensures [C05_file_surface] readFailed() ==> result0 == errMIME && errid(result1) == reader_err
-//@   ensures [C05_file_same_walk] result1 == nil ==> len(readBytes) == reader_n && mirrors(result0, leaf(root, readBytes, old(readLimit)))
+//@   ensures [C03C04C05_file_same_walk] result1 == nil ==> len(readBytes) == reader_n && mirrors(result0, leaf(root, readBytes, old(readLimit)))
 //@   ensures [C03C05_file_orig] result1 == nil ==> MIME(result0.orig) == MIME(leaf(root, readBytes, old(readLimit)))
 //@   ensures [C02C03_file_chain] result1 == nil ==> fresh(result0) && (forall x :: fresh(MIME(x)) ==> link(x))
 
